@@ -1,6 +1,7 @@
 """C11 — every advertised API version is served with a decodable response (broker + proxy)."""
 import json
 import os
+import struct
 import subprocess
 
 from checks import lib
@@ -17,6 +18,11 @@ OBLIGATIONS = [
     "KafVerif.C11.response_header_corr",
     "KafVerif.C11.apiversions_header_never_flexible",
     "KafVerif.C11.advertised_reply_version",
+    "KafVerif.C11.skipResponseHeader_total",
+    "KafVerif.C11.skipResponseHeader_roundtrip",
+    "KafVerif.C11.skipResponseHeader_reply",
+    "KafVerif.C11.skipResponseHeader_short",
+    "KafVerif.C11.skipResponseHeader_apiversions_shifted",
 ]
 BUILDS = {
     "b": ("root", "./cmd/broker", ["C10", "C11"]),
@@ -27,7 +33,8 @@ LEVEL_TEXT = ("Lean obligations over tables REGENERATED from the current source 
               "generateApiVersions/generateProxyApiVersions, handler version guards and served request types extracted with "
               "go/ast from handler.Handle, kmsg max/flexible versions): every advertised (key, version) has a dispatch arm, "
               "passes every handler version guard and is known to kmsg; proxy ranges lie inside broker ranges; response header "
-              "is 5 bytes iff flexible and key != ApiVersions and carries the correlation id.  Byte-level decodability is "
+              "is 5 bytes iff flexible and key != ApiVersions and carries the correlation id; the proxy's SkipResponseHeader never "
+              "panics and inverts that header (any well-formed tagged-field section) for every key but ApiVersions.  Byte-level decodability is "
               "validated exhaustively over the finite (key, version) space with generated bodies through the real handler and "
               "the real proxy connection loop.")
 LEVEL_NOTE = "partial: the theorems cover the tables and the header rule; decodability of response bodies is validated (exhaustive over (key, version), generated bodies), kmsg being the codec"
@@ -38,6 +45,7 @@ ASSUMPTIONS = [
     "generated bodies keep partition indexes in 0..3 and ListOffsets MaxNumOffsets <= 16 (handler allocation/creation by request is out of scope, see notes)",
     "the go/ast extractor recognises version guards of the form `if header.APIVersion </> LIT {... return nil, err}` in Handle and in handle* callees",
 ]
+N_BOUNDARY_NAMES = 11      # = len(verifC11BoundaryNames) in harness/C11/root/cmd/broker/zz_verif_c11.go
 GEN = os.path.join(lib.LEAN, "KafVerif", "Gen", "C11Tables.lean")
 
 
@@ -156,6 +164,24 @@ def run(ck):
     fn = ck.path("ops_broker.txt")
     model = ck.lean_run("C11", fn)
     _judge(ck, "broker", ops, meta, impl, model)
+    # ---------------- broker, boundary strings: every advertised (key, version) whose request has a Topics list, with topic names at
+    # the int16 string-length boundary (32766/32767, 32768 for flexible versions), the topic-name limit (249/250), and names that
+    # expand when quoted/escaped (NULs, quotes, DEL, multi-byte) - whatever a handler echoes into the reply, it must stay decodable
+    bops, bmeta = [], []
+    for k, v, adv in pairs(rows["broker"], extra=False):
+        for idx in range(N_BOUNDARY_NAMES):
+            corr = ck.rng.choice([1, -1, 2 ** 31 - 1, ck.rng.below(2 ** 31)])
+            bops.append("reqb %d %d %d %d %d" % (k, v, corr, ck.rng.next() % (1 << 62), idx))
+            bmeta.append((k, v, adv, corr))
+    bimpl = _run_impl(ck, bins["b"], {"VERIF_HARNESS": "C11"}, bops, "broker_boundary")
+    keep = [i for i, o in enumerate(bimpl) if o != "reply not-applicable"]
+    ck.count("broker-boundary:not-applicable", len(bops) - len(keep))
+    mfn = ck.path("ops_boundary_model.txt")
+    open(mfn, "w").write("\n".join("req " + " ".join(bops[i].split()[1:5]) for i in keep) + "\n")
+    bmodel = ck.lean_run("C11", mfn) if keep else []
+    _judge(ck, "broker", [bops[i] for i in keep], [bmeta[i] for i in keep], [bimpl[i] for i in keep], bmodel)
+    # ---------------- SkipResponseHeader (the proxy's reading of a reply header) against the model and the header rule
+    run_srh(ck, bins, rows)
     # ---------------- broker, pipelined: every advertised (key, version) back to back on ONE real connection loop
     for mode in [0, 1, 2 + ck.rng.below(1 << 30)] + ([] if ck.quick() else [2 + ck.rng.below(1 << 30) for _ in range(6)]):
         pseed = ck.rng.next() % (1 << 62)
@@ -204,6 +230,70 @@ def run(ck):
     open(mfn, "w").write("\n".join(mops) + "\n")
     pmodel = ck.lean_run("C11", mfn)
     _judge(ck, "proxy", pops, pmeta, pimpl, pmodel)
+
+
+def _uvarint(v):
+    out = bytearray()
+    while v >= 0x80:
+        out.append((v & 0x7F) | 0x80)
+        v >>= 7
+    out.append(v)
+    return bytes(out)
+
+
+def srh_cases(rng, kmsg_rows, n):
+    """`srh k v hex` = protocol.SkipResponseHeader on reply bytes.  Returns (op, expected body or None): expected is set for replies
+    whose header is written by the rule of EncodeResponse / any Kafka peer (correlation id, + a well-formed tagged-field section iff the
+    response is flexible) for keys other than ApiVersions; everything else (short data, lying sizes, unknown keys, key 18) is compared
+    with the model only."""
+    out = []
+    def add(k, v, data, want):
+        out.append(("srh %d %d %s" % (k, v, lib.hexs(data)), want))
+    for (k, mx, _fq, fr) in kmsg_rows:
+        for v in sorted({0, min(max(0, fr - 1), mx), min(fr, mx), mx}):   # the table is a threshold for versions -2..64 (asserted by the harness); 32767 = never
+            flexible = v >= fr
+            corr = struct.pack(">i", rng.choice([0, 1, -1, 2 ** 31 - 1, -2 ** 31, rng.below(2 ** 31)]))
+            body = rng.choice([b"", b"\x00", b"\x00\x00", b"\x01\x00\x00", b"\x80", rng.bytes(rng.below(12))])
+            tags = [] if rng.chance(2, 3) else [(rng.choice([0, 1, 127, 128, 2 ** 64 - 1]), rng.bytes(rng.choice([0, 1, 2, 127, 128])))
+                                                 for _ in range(rng.choice([1, 2, 3]))]
+            section = (_uvarint(len(tags)) + b"".join(_uvarint(t) + _uvarint(len(d)) + d for t, d in tags)) if flexible else b""
+            add(k, v, corr + section + body, body if k != 18 else None)
+            add(k, v, corr, b"" if (not flexible and k != 18) else None)              # nothing after the correlation id
+            add(k, v, corr[: rng.below(4)], None)                                      # shorter than a correlation id
+            if flexible:
+                add(k, v, corr + b"\x01\x00" + _uvarint(rng.choice([5, 2 ** 31, 2 ** 63, 2 ** 64 - 1])) + body, None)   # lying size
+                add(k, v, corr + bytes([0x80] * rng.choice([1, 9, 10])) + body, None)                                   # bad varint
+    for k in (200, -1, 32767, 68, 93):
+        add(k, 0, b"\x00\x00\x00\x01\x00", None)
+    for _ in range(n):
+        k, mx, _fq, fr = rng.choice(kmsg_rows)
+        add(k, rng.choice([0, min(fr, mx), mx, mx + 1, -1]), rng.bytes(rng.below(14)), None)
+    return out
+
+
+def run_srh(ck, bins, rows):
+    cases = srh_cases(ck.rng, rows["kmsg"], 200 if ck.quick() else 3000)
+    ops = [c[0] for c in cases]
+    impl = _run_impl(ck, bins["b"], {"VERIF_HARNESS": "C11"}, ops, "srh")
+    model = ck.lean_run("C11", ck.path("ops_srh.txt"))
+    for (op, want), o, m in zip(cases, impl, model):
+        ck.count("srh:" + " ".join(o.split()[:2]))
+        ck.case(op, nontrivial=o.startswith("srh ok"), sample={"op": op[:100], "impl": o[:100]} if want else None)
+        what = None
+        if "panic" in o or o.startswith("crash") or o == "missing":
+            what = ("reply-header-skip-panic", "SkipResponseHeader panicked/crashed on reply bytes: " + o[:100])
+        elif want is not None and o != "srh ok body=" + lib.hexs(want):
+            what = ("reply-header-not-skipped-exactly",
+                    "a reply whose header follows the rule of EncodeResponse (correlation id + tagged-field section iff flexible) is not "
+                    "read back by SkipResponseHeader as header + exactly the body (%s, expected body=%s)" % (o[:80], lib.hexs(want)[:80]))
+        if what:
+            ck.violation(what[0], what[1], {"ops": [op], "who": "srh", "actual": o, "expected": None if want is None else "srh ok body=" + lib.hexs(want)})
+            return
+        if o != m:
+            ck.cov["disagreements_checked"] += 1
+            ck.broke("correspondence model/implementation (protocol.SkipResponseHeader)", "op %r\nimpl : %s\nmodel: %s" % (op[:300], o[:300], m[:300]))
+            return
+    ck.cov["traces_validated_against_impl"] += 1
 
 
 def _run_impl(ck, binary, env, ops, tag):
@@ -296,6 +386,15 @@ def replay(ck, path):
             if not line.startswith("conc ok"):
                 ck.violation(rep.get("fingerprint", "concurrent-request-disturbed"), rep.get("what", line), {"ops": ops, "who": who, "actual": line})
                 break
+        ck.cov["distinct_nontrivial"] = max(ck.cov["distinct_nontrivial"], 2)
+        return
+    if who == "srh":
+        impl = _run_impl(ck, st["bins"]["b"], {"VERIF_HARNESS": "C11"}, ops, "replay")
+        for op, o in zip(ops, impl):
+            print("  %s -> %s (expected %s)" % (op[:120], o[:120], rep.get("expected")))
+            ck.case(op, sample={"op": op[:100], "impl": o[:100]})
+            if "panic" in o or o.startswith("crash") or (rep.get("expected") and o != rep["expected"]):
+                ck.violation(rep.get("fingerprint", "reply-header-not-skipped-exactly"), rep.get("what", o), {"ops": ops, "who": who, "actual": o, "expected": rep.get("expected")})
         ck.cov["distinct_nontrivial"] = max(ck.cov["distinct_nontrivial"], 2)
         return
     impl = _run_impl(ck, st["bins"]["b" if who == "broker" else "p"], {"VERIF_HARNESS": "C11" if who == "broker" else "C11P"}, ops, "replay")
